@@ -12,7 +12,7 @@ ROUND = os.environ.get("SEED_ROUND", "1")          # round 2 seeds live in /tmp/
 src = "/tmp/seed%s/out/%s" % ("" if ROUND == "1" else ROUND, pid)
 patch = os.path.join(src, "patch%s.diff" % suffix)
 demo = os.path.join(src, "demo%s.py" % suffix)
-name = "%s-%s" % (pid, {"1": "abx", "2": "cde", "3": "fgh", "4": "ijk", "5": "lmn"}[ROUND][int(suffix) - 1 if suffix else 0])
+name = "%s-%s" % (pid, {"1": "abx", "2": "cde", "3": "fgh", "4": "ijk", "5": "lmn", "6": "opq"}[ROUND][int(suffix) - 1 if suffix else 0])
 if not os.path.exists(patch) or os.environ.get("SEED_STORED"):   # re-evaluation of a stored seed
     src = os.path.join(V, "seeded", name)
     patch, demo = os.path.join(src, "patch.diff"), os.path.join(src, "demo.py")
